@@ -96,19 +96,22 @@ func cloneValue(src interface{}, dst interface{}) {
 
 	case reflect.Struct:
 		srcType := srcVal.Type()
-		// we deep copy structure
+		// we deep copy structure into a new one because dst may
+		// point to an interface{} the fields of which cannot be set
 		// warning: unexported pointers are copied here
-		dstVal.Elem().Set(srcVal)
+		tmp := reflect.New(srcType).Elem()
+		tmp.Set(srcVal)
 		for i := 0; i < srcVal.NumField(); i++ {
 			structField := srcType.Field(i)
 			srcField := srcVal.Field(i)
-			dstField := dstVal.Elem().Field(i)
+			dstField := tmp.Field(i)
 			if structField.IsExported() {
 				// we set to zero exported fields in order to deep copy them
 				dstField.Set(reflect.Zero(srcField.Type()))
 				cloneValue(srcField.Interface(), dstField.Addr().Interface())
 			}
 		}
+		dstVal.Elem().Set(tmp)
 
 	default:
 		dst := dstVal.Elem()
